@@ -4,7 +4,7 @@ From Coq Require Import List Ascii ZArith Bool Lia.
 From CGV Require Import Base.PyBase Base.PyVal Base.NxGraph Resolve.Bonding Resolve.GraphOps.
 From CGV Require Import Hydro.Squash Hydro.SquashDefs Hydro.QuotientDefs Hydro.BangBonds Hydro.BangGraph.
 From CGV Require Import Compose.CutModel Compose.CutPos Compose.CutSpecCheck Compose.CutSkeleton.
-From CGV Require Import Hydro.ShareCut.
+From CGV Require Import Hydro.ShareCut Hydro.ShareCutTotal.
 Import ListNotations.
 Open Scope Z_scope.
 
@@ -80,3 +80,14 @@ Proof.
     eexists _, fgs, _, fgd, _. split; [exact R1|]. split; [exact R2|]. split; [exact Q|].
     do 8 (split; [vm_compute; reflexivity|]). exact (proj2 (proj2 (proj2 (Hq _ Q)))).
 Qed.
+
+(** the extra hypotheses of ShareCutTotal.share_vs_cut_resolver_total hold on the same example, at both levels *)
+Example share_vs_cut_resolver_total_hypotheses :
+  wf_dictb (fragdict_of exC) = true /\
+  forall aa : bool,
+    match (st <- resolve_disconnected (fdmap (bangify exL) (fragdict_of exC)) (base_of exC) ;;
+           bonding_step true aa (base_of exC) (fst st) (snd st)) with
+    | Ok (gs, _) => hnum_gb gs = true
+    | Err _ => False
+    end.
+Proof. split; [vm_compute; reflexivity|]. intros []; vm_compute; reflexivity. Qed.
